@@ -9,6 +9,7 @@ EXPLANATION = (
     "(variant, and Some/None of the properties field) are compared with the shapes the router, links and AckLog can construct (constructibility = aggregate constructions in non-codec code, "
     "following pattern-bound fields back to the variants they came from, skipping arms of variants that are never constructed): constructible ⊆ encodable; "
     "(R-C20-passthrough) the Forward handed to the link carries the stored publish properties (so they survive towards MQTT 5 subscribers) and the publisher's topic alias is cleared before storage. "
+    "(R-C20-props) the broker's v5 PUBLISH property encoder and decoder use the same identifier and MQTT 5 wire type for each of the publish properties (shared with C04's table rule); "
     "NOT decided: byte-level equality of topic/payload across versions (value level, see C04).")
 ASSUMPTIONS = [
     "packets decoded from the network (constructed inside protocol::v4/v5 codec modules) reach an encoder only through the router paths analysed here (Publish properties are treated as possibly present)",
@@ -179,6 +180,42 @@ def run(ctx):
     entries, reach, sites = panic_scope(ctx, "R-C20-encode-total", "rumqttd", ENTRIES, "C20", "encoder entry points", extra=[shape_discharge])
     ctx.stats["constructed_enum_variants"] = len(shapes.constructed)
     ctx.guarded("R-C20-passthrough", passthrough, ctx, prog)
+    ctx.guarded("R-C20-props", publish_props, ctx, prog)
+
+
+class _PublishOnly:
+    """view of a Ctx that re-labels C04's property-table verdicts and keeps those about the broker's v5 PUBLISH codec"""
+    def __init__(self, ctx, rule):
+        self.ctx, self.rule, self.kept = ctx, rule, 0
+
+    def _keep(self, fn):
+        return fn.startswith("protocol::v5::publish::") or fn.endswith("PropertyType") or fn.endswith("::property")
+
+    def ok(self, rule, fn, instance, **kw):
+        if self._keep(fn):
+            self.kept += 1
+            self.ctx.ok(self.rule, fn, instance, **kw)
+
+    def violation(self, rule, fn, instance, what, **kw):
+        if self._keep(fn):
+            self.ctx.violation(self.rule, fn, instance, what, **kw)
+
+    def floor(self, rule, what, count, minimum):
+        self.ctx.floor(self.rule, what, count, minimum)
+
+    def anchor_missing(self, rule, what):
+        self.ctx.anchor_missing(self.rule, what)
+
+
+def publish_props(ctx, prog):
+    """properties survive towards MQTT 5 subscribers only if the v5 PUBLISH encoder writes every property
+    under the identifier and wire type its decoder (and the client's) reads it with"""
+    import json, os
+    from . import c04
+    spec = json.load(open(os.path.join(c04.RULES_DIR, "mqtt5_properties.json")))
+    view = _PublishOnly(ctx, "R-C20-props")
+    c04.prop_tables(view, prog, "rumqttd-v5", c04.COPIES["rumqttd-v5"][1], {r["id"]: r for r in spec})
+    ctx.floor("R-C20-props", "verdicts about protocol::v5::publish properties", view.kept, 8)
 
 
 def passthrough(ctx, prog):
